@@ -20,12 +20,23 @@ from ..profile import Profile
 from . import c10
 
 
+class _Log(list):
+    def __init__(self, sink):
+        list.__init__(self)
+        self.sink = sink
+
+    def append(self, x):
+        list.append(self, x)
+        self.sink.append(x)
+
+
 class Taps(object):
     """Installs recording taps on minecraft.networking.encryption for the duration of a with-block."""
 
     def __init__(self, enc):
         self.enc = enc
         self.logs = []          # one list per wrapper pair (per cipher)
+        self.all = []           # every record of every wrapper, in the order it happened
         self.urandom = []
 
     def __enter__(self):
@@ -64,7 +75,7 @@ class Taps(object):
         by_dec = {}
 
         def s_init(self_, socket, encryptor, decryptor):
-            log = []
+            log = _Log(taps.all)
             taps.logs.append(log)
             by_dec[id(decryptor)] = log
             self_._vlog = log
@@ -82,7 +93,7 @@ class Taps(object):
         def f_init(self_, file_object, decryptor):
             log = by_dec.get(id(decryptor))
             if log is None:
-                log = []
+                log = _Log(taps.all)
                 taps.logs.append(log)
             self_._vlog = log
             taps.saved[3](self_, TapFile(file_object, log), decryptor)
@@ -190,7 +201,7 @@ def login_trace(enc_mod, version, seed, keybits, token_len, n_play, thr):
         holder['sc'].resume('end')
     with Taps(enc_mod) as taps:
         run.go(scenario)
-    log = taps.logs[0] if taps.logs else []
+    log = taps.all
     sec = info.get('secret') or b''
     tr = {'secret': list(sec), 'key': list(sec if len(sec) == 16 else b'\0' * 16), 'login': True, 'urandom': [list(u) for u in taps.urandom],
           'kl': info.get('kl', 0), 'blocks': info.get('blocks') or [[0], [0]], 'token': list(tok), 'ev': events_of(log)}
@@ -238,8 +249,78 @@ def direct_trace(enc_mod, seed, nbytes):
                     m = rng.randint(1, k - len(got))
                     got += (fw.read(m) if rng.random() < 0.7 else sw.recv(m))
                 recvd += k
-    log = taps.logs[0]
+    log = taps.all
     return {'secret': list(secret), 'key': list(secret), 'login': False, 'urandom': [], 'kl': 0, 'blocks': [[0], [0]], 'token': [], 'ev': events_of(log)}
+
+
+def reactor_trace(enc_mod, seed, nbytes, keybits=1024):
+    """The cipher exactly as the library installs it: LoginReactor.react on a real Connection whose socket and
+    file object are in-memory stand-ins; afterwards the server->client stream is consumed through BOTH
+    connection.file_object.read and connection.socket.recv (any split across calls), and the client sends."""
+    from minecraft.networking.connection import Connection, LoginReactor
+    from minecraft.networking.packets import clientbound
+    rng = random.Random(seed)
+    priv, der = c10.rsa_key(keybits)
+
+    class Wire(object):
+        def __init__(self):
+            self.inb, self.out = b'', b''
+
+        def send(self, b):
+            self.out += bytes(b)
+            return len(b)
+
+        def recv(self, n):
+            r, self.inb = self.inb[:n], self.inb[n:]
+            return r
+
+        read = recv
+
+        def fileno(self):
+            return 0
+
+        def close(self):
+            pass
+    w = Wire()
+    conn = Connection('h', 25565, username='u', allowed_versions={757})
+    conn.socket, conn.file_object = w, w
+    tok = bytes(rng.getrandbits(8) for _ in range(rng.choice([1, 4, 16])))
+    pkt = clientbound.login.EncryptionRequestPacket(context=conn.context)
+    pkt.server_id, pkt.public_key, pkt.verify_token = '-', der, tok
+    with Taps(enc_mod) as taps:
+        LoginReactor(conn).react(pkt)
+        # what the client wrote: one frame = length, id, two byte arrays
+        rd = P.Reader(w.out)
+        rd.varint()
+        rd.varint()
+        esec, etok = rd.barr(), rd.barr()
+        nums = priv.private_numbers()
+        n = nums.public_numbers.n
+        kl = (n.bit_length() + 7) // 8
+        ems = [list(pow(int.from_bytes(f, 'big'), nums.d, n).to_bytes(kl, 'big')) for f in (esec, etok)]
+        try:
+            secret = c10.rsa_decrypt(priv, esec)
+        except Exception:       # noqa
+            secret = b''
+        key = secret if len(secret) == 16 else b'\0' * 16
+        srv = P.CFB8(key)
+        sent = recvd = 0
+        while sent < nbytes or recvd < nbytes:
+            if sent < nbytes and (recvd >= nbytes or rng.random() < 0.4):
+                k = min(nbytes - sent, rng.choice([1, 2, 7, 16, 30]))
+                conn.socket.send(bytes(rng.getrandbits(8) for _ in range(k)))
+                sent += k
+            else:
+                k = min(nbytes - recvd, rng.choice([1, 3, 16, 17, 40]))
+                w.inb += srv.encrypt(bytes(rng.getrandbits(8) for _ in range(k)))
+                got = 0
+                while got < k:
+                    m = rng.randint(1, k - got)
+                    got += len(conn.file_object.read(m) if rng.random() < 0.6 else conn.socket.recv(m))
+                recvd += k
+    ev = events_of(taps.all)
+    return {'secret': list(secret), 'key': list(key), 'login': True, 'urandom': [list(u) for u in taps.urandom], 'kl': kl,
+            'blocks': ems, 'token': list(tok), 'ev': ev}
 
 
 def run(chk):
@@ -266,6 +347,12 @@ def run(chk):
         tr = direct_trace(enc_mod, chk.seed * 20011 + j, 60 if quick else rng.choice([40, 100, 300]))
         tr['meta'] = {'kind': 'direct', 'seed': chk.seed * 20011 + j}
         chk.case(('direct', j))
+        traces.append(tr)
+    n_reactor = 6 if quick else 60
+    for j in range(n_reactor):
+        tr = reactor_trace(enc_mod, chk.seed * 30011 + j, 50 if quick else rng.choice([40, 120]), keybits=2048 if j % 3 == 2 else 1024)
+        tr['meta'] = {'kind': 'login-reactor wrappers, mixed read/recv', 'seed': chk.seed * 30011 + j}
+        chk.case(('reactor', j))
         traces.append(tr)
     total_bytes = sum(len(e['p']) for t in traces for e in t['ev'])
     # shard; the DistinctSecrets assumption needs all login traces together, so each shard carries a stub of every login secret
